@@ -38,3 +38,54 @@ impl Entry {
     #[verifier::external_body]
     pub fn timestamp(&self) -> (r: BlobRecordTimestamp) ensures r.0 == self.ts() { unimplemented!() }
 }
+
+impl Entry {
+    pub uninterp spec fn deleted(&self) -> bool;
+    // the metadata stored on disk for this entry (None: unreadable)
+    pub uninterp spec fn stored_meta(&self) -> Option<MetaV>;
+    #[verifier::external_body]
+    pub fn is_deleted(&self) -> (r: bool) ensures r == self.deleted() { unimplemented!() }
+}
+// value of a Meta map for comparison purposes
+#[verifier::external_body]
+pub struct MetaV { _p: u8 }
+
+// FuturesOrdered<...>: yields the results of the per-blob lookups in the order the blobs were
+// visited (R1: the futures are awaited one after another)
+#[verifier::external_body]
+pub struct EntryStream { _p: u8 }
+impl EntryStream {
+    pub uninterp spec fn rest(&self) -> Seq<Result<ReadResult<Entry>, VErr>>;
+    #[verifier::external_body]
+    pub fn next(&mut self) -> (r: Option<Result<ReadResult<Entry>, VErr>>)
+        ensures
+            old(self).rest().len() == 0 ==> r is None && final(self).rest() == old(self).rest(),
+            old(self).rest().len() > 0 ==> r == Some(old(self).rest()[0]) && final(self).rest() == old(self).rest().drop_first(),
+    { unimplemented!() }
+}
+
+// slice::sort_by(|a, b| b.timestamp().cmp(&a.timestamp())) — std: stable sort, here by timestamp descending
+pub open spec fn ts_desc(s: Seq<Entry>) -> bool {
+    forall|i: int, j: int| 0 <= i <= j < s.len() ==> s[i].ts() >= s[j].ts()
+}
+// `r` is a stable rearrangement of `s` ordered by timestamp descending: elements of equal
+// timestamp keep their relative order (this is what makes "blob recency, then append recency"
+// the tie-break of the merged list)
+pub uninterp spec fn stable_sorted_desc(s: Seq<Entry>, r: Seq<Entry>) -> bool;
+#[verifier::external_body]
+pub proof fn axiom_stable_sorted(s: Seq<Entry>, r: Seq<Entry>)
+    requires stable_sorted_desc(s, r)
+    ensures ts_desc(r), r.len() == s.len(), r.to_multiset() == s.to_multiset()
+{ }
+#[verifier::external_body]
+pub fn sort_entries_ts_desc(v: &mut Vec<Entry>)
+    ensures stable_sorted_desc(old(v)@, final(v)@)
+{ unimplemented!() }
+// Iterator::position(|h| h.is_deleted())
+#[verifier::external_body]
+pub fn position_deleted_entry(v: &Vec<Entry>) -> (r: Option<usize>)
+    ensures match r {
+        Some(i) => i < v.len() && v@[i as int].deleted() && (forall|j: int| 0 <= j < i ==> !v@[j].deleted()),
+        None => forall|j: int| 0 <= j < v.len() ==> !v@[j].deleted(),
+    }
+{ unimplemented!() }
